@@ -60,6 +60,9 @@ class TakeLast(Blockwise):
             if a.ndim == 1 and (a.empty or a.isna().all()):
                 return None
             a = a.ffill()
+        if a.ndim == 2 and len(a) == 0:
+            # an empty partition contributes nothing to the running aggregate
+            return None
         # only squeeze the row axis: a single-column frame must stay a Series
         return a.tail(n=1).squeeze(axis=0)
 
